@@ -33,7 +33,7 @@ IU = 'utils.iter_utils'
 
 
 def run(ctx: Ctx):
-  for r in (r1, r2, r3, r4, r6, r10, r11, r12, r13, r14):
+  for r in (r1, r2, r3, r4, r6, r10, r11, r12, r13, r14, r15):
     ctx.guard(r)
   from mlmverif.props import c04
   from mlmverif.props._queue import model as qmodel
@@ -756,10 +756,62 @@ def r6(ctx: Ctx):
   ctx.floor(rule, 2, n)
 
 
+def r15(ctx: Ctx):
+  rule = 'R-C13-15'
+  ctx.rule(rule, '"collects every generator\'s return value": the per-worker function pmap hands to piter_fn passes the END of its'
+           ' input through unchanged — it is `map(<fn>, <input>)` over its parameter (a map object re-raises the input\'s'
+           ' StopIteration with its value), or a generator function that returns what its input returned (`return (yield'
+           ' from ...)` / an explicit `return <value>`). A for-loop or a generator expression over the input swallows the'
+           ' StopIteration value: the mapped generator\'s return value is lost with parallelism although the sequential'
+           ' `map(fn, it)` of the same function delivers it')
+  mi = ctx.repo.module('utils.iter_utils')
+  fi = mi.functions.get('pmap')
+  if fi is None:
+    raise AnalysisError('iter_utils.pmap not found')
+  n = 0
+  nested = {x.name: x for x in ast.walk(fi.node) if isinstance(x, ast.FunctionDef) and x is not fi.node}
+  for c in walk_no_nested(fi.node):
+    if not (isinstance(c, ast.Call) and unparse(c.func) in ('piter_fn', 'piter') and (c.args or kwarg(c, 'iterator_fn') is not None)):
+      continue
+    n += 1
+    f0 = c.args[0] if c.args else kwarg(c, 'iterator_fn')
+    what = 'pmap: the worker function relays the return value of its input'
+    ok, why = False, ''
+    if isinstance(f0, ast.Lambda):
+      ps = [a.arg for a in f0.args.args]
+      b = f0.body
+      ok = (isinstance(b, ast.Call) and unparse(b.func) == 'map' and len(b.args) == 2 and len(ps) == 1
+            and isinstance(b.args[1], ast.Name) and b.args[1].id == ps[0])
+      why = f'`{unparse(f0)[:60]}` is not `lambda it: map(<fn>, it)`'
+    elif isinstance(f0, ast.Name) and f0.id in nested:
+      d = nested[f0.id]
+      is_gen = any(isinstance(y, (ast.Yield, ast.YieldFrom)) for y in walk_no_nested(d))
+      returns_value = any(isinstance(y, ast.Return) and y.value is not None for y in walk_no_nested(d))
+      ok = returns_value
+      why = (f'the generator function `{d.name}` loops over its input and never returns a value: the StopIteration value of'
+             ' the input ends the for-loop silently') if is_gen else f'`{d.name}` was not recognised as relaying the end of its input'
+    elif isinstance(f0, ast.Call) and unparse(f0.func) in ('functools.partial', 'partial') and f0.args and unparse(f0.args[0]) == 'map':
+      ok = True
+    else:
+      why = f'`{unparse(f0)[:60]}` was not recognised as relaying the end of its input'
+    if ok:
+      ctx.ok(rule, fi, what, c)
+    else:
+      ctx.fail(rule, fi, what, why + ': `returned` of the parallel stream stays empty (and the consumer\'s final StopIteration'
+               ' carries nothing) while pmap(..., max_parallism=0) returns the value', node=f0)
+  ctx.floor(rule, 1, n)
+
+
 from mlmverif.selfcheck import B, OK  # noqa: E402
 
 _F = 'utils/iter_utils.py'
 VARIANTS = [
+    B('pmap-maps-with-a-for-loop-generator', 'utils/iter_utils.py',
+      "  return piter_fn(\n      lambda it: map(fn, it),", "  def mapped(it):\n    for x in it:\n      yield fn(x)\n\n  return piter_fn(\n      mapped,", 'R-C13-15'),
+    B('pmap-maps-with-a-generator-expression', 'utils/iter_utils.py',
+      "      lambda it: map(fn, it),", "      lambda it: (fn(x) for x in it),", 'R-C13-15'),
+    OK('pmap-maps-with-partial-map', 'utils/iter_utils.py',
+       "      lambda it: map(fn, it),", "      functools.partial(map, fn),"),
     B('interrupt-skips-the-teardown', 'utils/iter_utils.py',
       '    except KeyboardInterrupt:\n      self.maybe_stop()\n      raise\n    except Exception:\n      logging.exception(\'chainable: %s\', f\'error iterating "{self.name}".\')',
       '    except Exception:\n      logging.exception(\'chainable: %s\', f\'error iterating "{self.name}".\')', 'R-C13-14'),
